@@ -125,6 +125,48 @@ def skeleton(key, wlen=1, alpha='aB9.*'):
     return ob3 if '{w3}' in templ else (ob2 if '{w2}' in templ else ob1)
 
 
+LONG_PIECES = ['.', '*', '(', 'x']
+SEPS = [' ', '  ', '\t', '   ', ' \t ']
+
+
+def long_token(first=True):
+    """One word of the description is long: n filler letters, a piece with a regex metacharacter, a tail - n and the piece are picked by
+    symbolic indices, so a length limit anywhere in the suggestion code (whatever its value up to 40) meets a metacharacter on it."""
+    def ob(n: int, pi: int) -> bool:
+        """
+        pre: 0 <= n <= 40 and 0 <= pi < 4
+        post: _
+        """
+        from engine.ob import pick
+        reset_tally_caches()
+        n, pi = pick(n, 41), pick(pi, 4)
+        word = 'W' * n + LONG_PIECES[pi] + 'ACMECO' + LONG_PIECES[pi] + 'COM'
+        desc = (word + ' PAYMENT REF') if first else ('ONLINE ' + word + ' REF')
+        return post(_check(desc))
+    return ob
+
+
+def spacing(words):
+    """The words of a description are separated by runs of blanks / tabs picked by symbolic indices (fixed-width bank exports)."""
+    words = list(words)
+
+    def ob(s1: int, s2: int, s3: int, lead: bool) -> bool:
+        """
+        pre: 0 <= s1 < 5 and 0 <= s2 < 5 and 0 <= s3 < 5
+        post: _
+        """
+        from engine.ob import pick, flag
+        reset_tally_caches()
+        seps = [SEPS[pick(s1, 5)], SEPS[pick(s2, 5)], SEPS[pick(s3, 5)]]
+        desc = words[0]
+        for w, sp in zip(words[1:], seps):
+            desc += sp + w
+        if flag(lead):
+            desc = ' ' + desc + ' '
+        return post(_check(desc))
+    return ob
+
+
 PAIRS = [
     ('{w1} DES:PAYROLL ID:88 {w2}', '{w1} DES:TAX ID:88 {w2}'),
     ('{w1} SEATTLE WA', '{w1} #152 SEATTLE WA'),
@@ -174,6 +216,12 @@ def obligations(tier, seed):
         if not q and not three:
             obs.append(Obligation(id=f'skeleton-{k}-w1', factory='skeleton', params={'key': k, 'wlen': 1, 'alpha': 'aB9.*'}, timeout=300, group='structured descriptions',
                                   bounds=f'{SKELETONS[k]!r} with words of 1 char over a B 9 . *'))
+    for first in (True, False):
+        obs.append(Obligation(id='long-token-' + ('first' if first else 'second'), factory='long_token', params={'first': first}, timeout=170 if q else 900, group='structured descriptions',
+                              bounds='the %s word = 0..40 filler letters + a piece from %r + ACMECO + piece + COM (symbolic indices)' % ('first' if first else 'second', LONG_PIECES)))
+    for j, ws in enumerate([('WHOLE', 'FOODS', 'MARKET', '10234'), ('CHECKCARD', 'GREEN', 'LEAF', 'CAFE'), ('A.B', 'C*D', 'E', 'WA')][:2 if q else 3]):
+        obs.append(Obligation(id=f'spacing-{j}', factory='spacing', params={'words': list(ws)}, timeout=170 if q else 900, group='structured descriptions',
+                              bounds=f'words {ws} separated by blank / tab runs from {SEPS!r} (symbolic indices), with or without surrounding blanks'))
     for i in range(len(PAIRS)):
         obs.append(Obligation(id=f'combined-{i}', factory='combined', params={'i': i}, timeout=170 if q else 900, group='suggestions written to one file',
                               bounds=f'descriptions {PAIRS[i]!r} with words of 1-2 chars over a B 9; both suggested rules in one rules file'))
